@@ -7,7 +7,7 @@
                        pulse and every t in [0, total) the program plays  at_ pcs c t  (half-open junctions). *)
 From Coq Require Import ZArith QArith List Bool.
 Require Import QV.C01.Model QV.C01.Spec QV.C01.Proofs QV.C01.ProofsDefs QV.C01.Proofs_trafo QV.C01.Proofs_table
-        QV.C01.Proofs_comp QV.C01.Proofs_atoms QV.C01.Proofs_main QV.C01.Proofs_sampling QV.C01.Proofs_leaves QV.C01.Proofs_atoms2 QV.C01.Proofs_chans QV.C01.Proofs_builder.
+        QV.C01.Proofs_comp QV.C01.Proofs_atoms QV.C01.Proofs_main QV.C01.Proofs_sampling QV.C01.Proofs_leaves QV.C01.Proofs_atoms2 QV.C01.Proofs_chans QV.C01.Proofs_builder QV.C01.Proofs_dec.
 Import ListNotations.
 Open Scope Q_scope.
 
@@ -289,3 +289,28 @@ Example C01_multi_guard_nonvacuous :
   atom_guard (AMulti [AConst (EV 1%N) [(ChS 1, EC 1)]; AConst (EC 0) [(ChS 2, EC 1)]]) (SDict [(1%N, 0)]) (cm_of []) = true /\
   atom_guard a (SDict [(1%N, 0)]) (cm_of []) = false.
 Proof. exact multi_guard_nonvacuous. Qed.
+
+(* ---- round 4: exact repetition boundaries for EVERY rational duration (the decimal stream's reference) ---- *)
+(* the k-th pass of a repeated waveform starts exactly at k * duration and plays the body from local time s; no drift,
+   whatever the duration (1/10, 1/3, 5/12 ...).  The decimal correspondence stream (Corr.CDec) checks the code against
+   this; accumulating the boundaries in binary64 (seeded change C01-5) violates it at k = 3, duration 1/10 *)
+Theorem C01_repetition_restarts : forall b n c k s, 0 < wdur b -> (0 <= k < n)%Z -> 0 <= s -> s < wdur b ->
+  wsample (WRep b n) c (inject_Z k * wdur b + s) = wsample b c (Qred s).
+Proof. exact rep_restarts. Qed.
+Print Assumptions C01_repetition_restarts.
+
+Theorem C01_repetition_boundary : forall b n c k, 0 < wdur b -> (0 <= k < n)%Z ->
+  wsample (WRep b n) c (inject_Z k * wdur b) = wsample b c 0.
+Proof. exact rep_boundary. Qed.
+Print Assumptions C01_repetition_boundary.
+
+(* the seed's input: a ramp 0 -> 1 of duration 1/10 repeated four times, instantiated from the template and sampled
+   through to_waveform on the repetition starts k/10: every sample is the START value 0 (the changed code answers the
+   end value at 3/10); between them the ramp (1/2 at 7/20) *)
+Example C01_repetition_boundary_decimal :
+  let ramp := PAtom (ATable [(ChS 1, [(EC 0, EC 0, Hold); (EV 1, EC 1, Linear)])]) in
+  exists prog, create_program (PRep (EC 4) ramp) [(1%N, 1 # 10)] [] None = Ok (Some prog) /\
+    map (sampled prog (ChS 1)) [0; 1 # 10; 2 # 10; 3 # 10; 7 # 20] = [Some 0; Some 0; Some 0; Some 0; Some (1 # 2)] /\
+    map (play prog (ChS 1)) [0; 1 # 10; 2 # 10; 3 # 10; 7 # 20] = [Some 0; Some 0; Some 0; Some 0; Some (1 # 2)].
+Proof. eexists. repeat split; vm_compute; reflexivity. Qed.
+
